@@ -115,6 +115,9 @@ pub enum Blocking {
     Compressed(usize),
     /// Alternate raw / compressed, of the given size.
     Mixed(usize),
+    /// All blocks compressed with zstd's *streaming* API (frames without a declared content
+    /// size, as most independent implementations produce), of the given size.
+    CompressedStream(usize),
 }
 
 // ------------------------------------------------------------------------------------------
@@ -221,7 +224,7 @@ pub fn encode_raw_stream(buf: &mut Vec<u8>, raw: &[u8], blocking: Blocking) -> B
     let mut stats = BlockStats::default();
     let size = match blocking {
         Blocking::Canonical => BLOCK,
-        Blocking::CanonicalWith(n) | Blocking::Raw(n) | Blocking::Compressed(n) | Blocking::Mixed(n) => n.clamp(1, 65_535),
+        Blocking::CanonicalWith(n) | Blocking::Raw(n) | Blocking::Compressed(n) | Blocking::Mixed(n) | Blocking::CompressedStream(n) => n.clamp(1, 65_535),
     };
     for (i, chunk) in raw.chunks(size).enumerate() {
         stats.blocks += 1;
@@ -229,6 +232,15 @@ pub fn encode_raw_stream(buf: &mut Vec<u8>, raw: &[u8], blocking: Blocking) -> B
             Blocking::Canonical | Blocking::CanonicalWith(_) => zstd_fit(chunk),
             Blocking::Raw(_) => None,
             Blocking::Compressed(_) => zstd::bulk::compress(chunk, 0).ok().filter(|c| c.len() <= 65_535),
+            Blocking::CompressedStream(_) => {
+                use std::io::Write;
+                let mut enc = zstd::stream::Encoder::new(Vec::new(), 0).ok();
+                let out = enc.take().and_then(|mut e| {
+                    e.write_all(chunk).ok()?;
+                    e.finish().ok()
+                });
+                out.filter(|c| c.len() <= 65_535)
+            }
             Blocking::Mixed(_) => {
                 if i % 2 == 0 {
                     None
